@@ -73,6 +73,11 @@ func newBufEnv(c *ctx, netn int) *bufEnv {
 	bind := func(k, port int) *net.UDPConn {
 		a := &net.UDPAddr{IP: net.ParseIP(e.ip(k)), Port: port}
 		conn, err := net.ListenUDP("udp4", a)
+		for try := 0; err != nil && try < 100; try++ {
+			// another process of this machine may hold the port for a moment (a wildcard bind of a test binary)
+			time.Sleep(300 * time.Millisecond)
+			conn, err = net.ListenUDP("udp4", a)
+		}
 		if err != nil {
 			fmt.Fprintln(os.Stderr, "harness: cannot bind", a, err)
 			os.Exit(3)
